@@ -250,3 +250,12 @@ Definition te_mismatch (c : te_case) : bool :=
   end.
 Definition te_mismatches (cs : list te_case) : list Z := map te_id (filter te_mismatch cs).
 Definition te_ctx_not_ok (cs : list te_case) : list Z := map te_id (filter (fun c => negb (tq_ctx_ok_b (te_ctx c))) cs).
+
+(* the statements of a search / tags / values request with a query: text of C11's planner model vs the recorded one, inside C13's run *)
+Record tt_case := { tt_id : Z; tt_ctx : TraceqlPlan.ctx; tt_q : Traceql.script; tt_mode : TraceqlPlan.mode; tt_sql : string }.
+Definition tt_mismatch (c : tt_case) : bool :=
+  match TraceqlPlan.plan (tt_q c) (tt_mode c) (tt_ctx c) 1 with
+  | TraceqlPlan.Ok s => negb (String.eqb (TqSql.render s) (tt_sql c))
+  | _ => true
+  end.
+Definition tt_mismatches (cs : list tt_case) : list Z := map tt_id (filter tt_mismatch cs).
